@@ -24,7 +24,9 @@ RULE = (
     "whose best reachable distance (row minimum of the Levenshtein table) does not rise. Hard OCD "
     "loss on the same batches with seed-valued logits, V=3, reductions none/sum/mean, optional class "
     "weights. Rows are checked only for hypotheses with >=1 counted token (as the property states). "
-    "Distinct by construction; non-trivial = target set for some prefix has size != 1."
+    "Distinct by construction; non-trivial = target set for some prefix has size != 1. Plus a larger instance "
+    "(R,H,N) = (40,36,24) over 3 symbols + eos handed in as offset non-contiguous views, one module object reused "
+    "across unrelated calls, module == functional on clones, arguments unchanged, targets against an integer DP."
 )
 ASSUMPTIONS = [
     "small-scope alphabet/lengths/cost menu as for C01",
@@ -46,6 +48,7 @@ def shards(tier, seed):
             out.append({"R": R, "H": H, "sigma": [0, 1]})
     if tier == "thorough":
         out += [{"R": 5, "H": H, "sigma": [0, 1, 2]} for H in (3, 4)]
+    out += [{"large": [40, 36, 24], "cost": c} for c in ((1.0, 1.0, 1.0), (1.0, 0.5, 2.0))]
     return out
 
 
@@ -206,8 +209,64 @@ def _check_loss(ctx, pairs, effs, ref, hyp, logits, eos, include_eos, cost, tier
                                   {"admissible": readings, "observed": out.item()})
 
 
+def _large(ctx, R, H, N, cost, seed):
+    """Larger instance (long references with many repeats), offset non-contiguous views, one module object reused."""
+    eos = 3
+    refs, hyps, ref, hyp = S.large_batch(R, H, N, seed, eos)
+    ci, cd, cs = (int(round(c * 2)) for c in cost)
+    for include_eos, exclude_last, batch_first in itertools.product((False, True), (False, True), (False, True)):
+        r_in, h_in = (ref.t(), hyp.t()) if batch_first else (ref, hyp)
+        r0, h0 = r_in.clone(), h_in.clone()
+        kw = dict(eos=eos, include_eos=include_eos, batch_first=batch_first, ins_cost=cost[0], del_cost=cost[1],
+                  sub_cost=cost[2], exclude_last=exclude_last)
+        case = {"kind": "large", "R": R, "H": H, "N": N, "cost": cost, "seed": seed, **kw}
+        ctx.case(N, N)
+        try:
+            mod = M.OptimalCompletion(warn=False, **kw)
+            mod(h_in, r_in)  # unrelated call first on the same object
+            out = mod(r_in, h_in)
+            out2 = F.optimal_completion(r_in.clone(), h_in.clone(), warn=False, **kw)
+        except Exception as e:
+            ctx.violation({"api": "optimal_completion", "symptom": "raises", "type": type(e).__name__, "large": True},
+                          case, {"error": str(e)[-300:]})
+            continue
+        if not (torch.equal(r0, r_in) and torch.equal(h0, h_in)):
+            ctx.violation({"api": "optimal_completion", "symptom": "argument-modified-in-place", "large": True}, case, {})
+            continue
+        if out.shape != out2.shape or not torch.equal(out, out2):
+            ctx.violation({"api": "optimal_completion", "symptom": "depends-on-layout-or-object-history", "large": True},
+                          case, {"shapes": [list(out.shape), list(out2.shape)]})
+            continue
+        o = (out if batch_first else out.transpose(0, 1)).tolist()  # N, rows, C
+        pad = config.INDEX_PAD_VALUE
+        for n in range(N):
+            er, eh = O.effective(refs[n], eos, include_eos), O.effective(hyps[n], eos, include_eos)
+            if not eh:
+                continue
+            _, cols = O.lev_int_full(er, eh, ci, cd, cs)
+            nvalid = len(eh) + (0 if exclude_last else 1)
+            bad = None
+            for j in range(len(o[n])):
+                got = [v for v in o[n][j] if v != pad]
+                want = O.ocd_targets_int(er, cols[j], ci, cd, cs, (0, 1, 2, eos)) if j < nvalid else []
+                if sorted(got) != want or o[n][j][len(got):] != [pad] * (len(o[n][j]) - len(got)):
+                    bad = (j, want, o[n][j])
+                    break
+            if bad:
+                ctx.violation({"api": "optimal_completion", "symptom": "wrong-target-set", "large": True,
+                               "exclude_last": exclude_last}, dict(case, pair=n),
+                              {"prefix_row": bad[0], "expected": bad[1], "observed": bad[2]})
+                break
+        else:
+            ctx.outcome([include_eos, exclude_last])
+    ctx.sample({"large_instance": {"R": R, "H": H, "N": N, "cost": cost}})
+
+
 def run_shard(spec, tier, seed):
     ctx = Ctx()
+    if "large" in spec:
+        _large(ctx, *spec["large"], tuple(spec["cost"]), seed)
+        return ctx
     R, H = spec["R"], spec["H"]
     sigma = tuple(spec.get("sigma", S.SIGMA))
     long_ref = "sigma" in spec
@@ -234,6 +293,9 @@ def run_shard(spec, tier, seed):
 
 def replay(case):
     ctx = Ctx()
+    if case["kind"] == "large":
+        _large(ctx, case["R"], case["H"], case["N"], tuple(case["cost"]), case["seed"])
+        return ctx
     if case["kind"] == "oc":
         ref = torch.tensor(case["ref"], dtype=torch.long).view(-1, 1)
         hyp = torch.tensor(case["hyp"], dtype=torch.long).view(-1, 1)
